@@ -36,7 +36,8 @@ def polOf (j : Option Json) : R (Nat → Bool) :=
     | _ => throw "bad pol"
 
 def reqOf (j : Json) : R Request := do
-  pure ⟨← natF j "method", ← boolF j "versionOk", ← boolF j "paramsOk"⟩
+  pure ⟨← natF j "method", ← boolF j "versionOk", ← boolF j "paramsOk",
+        ← match fieldOpt j "resultDecodes" with | some v => bool v | none => pure true⟩
 
 def sopOf (s : String) : R SOp :=
   match s with
@@ -66,7 +67,8 @@ def shapeOf (j : Option Json) : R Gen.C04.Shape :=
            hdrAbortCloses := ← g "hdrAbortCloses" d.hdrAbortCloses,
            emptyRequestReplies := ← g "emptyRequestReplies" d.emptyRequestReplies,
            initErrorFlushesLogs := ← g "initErrorFlushesLogs" d.initErrorFlushesLogs,
-           failFlushesLogs := ← g "failFlushesLogs" d.failFlushesLogs }
+           failFlushesLogs := ← g "failFlushesLogs" d.failFlushesLogs,
+           unaryDrainBeforeDecode := ← g "unaryDrainBeforeDecode" d.unaryDrainBeforeDecode }
 
 def resName : Res → String
   | .none => "none" | .value => "value" | .error => "error" | .data => "data" | .fin => "end" | .raised => "raised"
